@@ -338,7 +338,7 @@ func (v *Value) Contains(other *Value) bool {
 	baseValue := v.getResolvedValue()
 	switch baseValue.Kind() {
 	case reflect.Struct:
-		fieldValue := baseValue.FieldByName(other.String())
+		fieldValue := fieldByName(baseValue, other.String())
 		return fieldValue.IsValid()
 	case reflect.Map:
 		// We can't check against invalid types
